@@ -1724,3 +1724,19 @@ class ScanIt(It):
         return r.f[0].v
 @native(('*', 'once'), ('iter', 'once'))
 def _once(ex, c, a, dt): return ListIt([a[0]])
+
+# rayon: executed sequentially (order-insensitivity of the callers is property C16, not claimed)
+@tnative(('IntoParallelRefIterator', 'par_iter'), ('IntoParallelRefMutIterator', 'par_iter_mut'))
+def _par_iter(ex, c, a, dt):
+    v = a[0]
+    if type(v) is not Ref:
+        v = Ref(Cell(v))
+    return to_iter(ex, v)
+@tnative(('IntoParallelIterator', 'into_par_iter'))
+def _into_par_iter(ex, c, a, dt): return to_iter(ex, a[0])
+for _m in ('map', 'filter', 'filter_map', 'flat_map', 'flatten', 'cloned', 'collect', 'for_each', 'find_first', 'find_any', 'count', 'any', 'all', 'sum', 'enumerate', 'chain', 'zip'):
+    for _t in ('ParallelIterator', 'IndexedParallelIterator'):
+        if ('Iterator', _m) in TRAIT_NATIVES and (_t, _m) not in TRAIT_NATIVES:
+            TRAIT_NATIVES[(_t, _m)] = TRAIT_NATIVES[('Iterator', _m)]
+TRAIT_NATIVES[('ParallelIterator', 'find_first')] = TRAIT_NATIVES[('Iterator', 'find')]
+TRAIT_NATIVES[('ParallelIterator', 'find_any')] = TRAIT_NATIVES[('Iterator', 'find')]
